@@ -8,6 +8,8 @@ func init() {
 		Fixtures:    []string{"w"},
 		Run:         runC13,
 		SelfTest: []Mutation{
+			{Name: "k-means adds the shared partial sums before taking the lock", File: "numerical/k_means.go",
+				Old: "\t\t\tresultLock.Lock()\n\t\t\tdefer resultLock.Unlock()\n\t\t\tfor i, c := range localCenterCount {", New: "\t\t\tfor i, s := range localCenterSum {\n\t\t\t\tlocalCenterSum[i] = centerSum[i].Add(s)\n\t\t\t}\n\t\t\tresultLock.Lock()\n\t\t\tdefer resultLock.Unlock()\n\t\t\tfor i, c := range localCenterCount {", Rule: "W.READ", Expect: "KMeans"},
 			{Name: "memoised scalar function publishes an empty slot and fills it later", File: "model2d/curves.go",
 				Old: "\t\tvalue, ok := cache.Load(x)\n\t\tif ok {\n\t\t\treturn value.(float64)\n\t\t} else {\n\t\t\ty := f(x)\n\t\t\tcache.Store(x, y)\n\t\t\treturn y\n\t\t}", New: "\t\tslot, loaded := cache.LoadOrStore(x, new(float64))\n\t\ty := slot.(*float64)\n\t\tif !loaded {\n\t\t\t*y = f(x)\n\t\t}\n\t\treturn *y", Rule: "PUBLISH", Expect: "CacheScalarFunc"},
 			{Name: "AddSpheresSDF without the mutex (defect F5 re-introduced)", File: "toolbox3d/height_map.go",
@@ -39,6 +41,8 @@ func runC13(c *Ctx) {
 	pkgs := append(c.libPkgs(), c.fixturePkg("w"))
 	c.runWorkerWrites(eng, pkgs, "W", nil)
 	c.floor("W", 25)
+	c.runWorkerReads(eng, pkgs, "W.READ", nil)
+	c.floor("W.READ", 1)
 	c.runQueryPurity(eng, pkgs, "Q")
 	c.floor("Q", 300)
 	c.runLazyInit(eng, pkgs, "Z")
